@@ -157,13 +157,23 @@ func (c *Ctx) checkPauseBeforeStoreDelete() {
 		}
 	}
 	for _, fn := range c.funcsCalling(del, "server") {
-		if len(core.CallsTo(fn, topicGet)) == 0 || len(core.CallsTo(fn, markPaused)) == 0 && !isPtrToNamedRecv(fn, "Hub") {
+		// a helper that was handed the live topic (the online case moved into a function of its own):
+		// it receives a *Topic and pauses it
+		handedLive := false
+		if len(core.CallsTo(fn, topicGet)) == 0 && len(core.CallsTo(fn, markPaused)) > 0 {
+			for _, p := range fn.Params {
+				if isPtrToNamed(p.Type(), "Topic") {
+					handedLive = true
+				}
+			}
+		}
+		if !handedLive && (len(core.CallsTo(fn, topicGet)) == 0 || len(core.CallsTo(fn, markPaused)) == 0 && !isPtrToNamedRecv(fn, "Hub")) {
 			continue // offline deletions (no live topic involved)
 		}
 		for _, site := range core.CallsTo(fn, del) {
 			// only the deletion of a topic that was found live: behind topicGet(..) != nil
 			gLive := core.NilGuard("topicGet()!=nil", core.IsCallTo(topicGet), false)
-			if ok, cnt := core.GuardedBy(fn, site.(ssa.Instruction), gLive); !ok || cnt[0] == 0 {
+			if ok, cnt := core.GuardedBy(fn, site.(ssa.Instruction), gLive); !handedLive && (!ok || cnt[0] == 0) {
 				continue
 			}
 			r.Func(fk(fn))
@@ -253,9 +263,27 @@ func (c *Ctx) checkMessageCopyIsDeep() {
 		}
 		n++
 		stores := core.StoresToField(cp, f)
+		// ... or in a helper the copy is handed to (`dst.unsharePayload()`, `dst.replacePayloads(src)`)
+		subst := map[ssa.Value]ssa.Value{}
+		core.AllInstrs(cp, func(in ssa.Instruction) {
+			if call, ok := in.(*ssa.Call); ok {
+				if g := call.Call.StaticCallee(); g != nil && core.InModule(g) && g != cp && isPtrToNamedRecv(g, "ServerComMessage") {
+					stores = append(stores, core.StoresToField(g, f)...)
+					for i, p := range g.Params {
+						if i < len(call.Call.Args) {
+							subst[p] = call.Call.Args[i]
+						}
+					}
+				}
+			}
+		})
 		good := len(stores) > 0
 		for _, s := range stores {
-			if !core.IsCallTo(copyM, core.IsFieldLoad(f))(s.Val) {
+			v := s.Val
+			if a, ok := subst[core.Strip(v)]; ok {
+				v = a // the copy was made by the caller and handed to the helper
+			}
+			if !core.IsCallTo(copyM, core.IsFieldLoad(f))(v) {
 				good = false
 			}
 		}
